@@ -32,7 +32,7 @@ theorem assert_false (s : St) : (assert_ false : M ρ Unit) s = .pidx s := by ca
 theorem alarm_ap (u : UB) (s : St) : (alarm u : M ρ α) s = .ub u := by cases s; rfl
 
 theorem rs_Ok_ap (a : α) (s : St) : (rs_Ok a : M ρ (Rs α)) s = .next (.ok a) s := by cases s; rfl
-theorem rs_Err_ap (e : ReserveErrorT) (s : St) : (rs_Err e : M ρ (Rs α)) s = .next .err s := by cases s; rfl
+theorem rs_Err_ap {ε : Type} (e : ε) (s : St) : (rs_Err e : M ρ (Rs α)) s = .next .err s := by cases s; rfl
 theorem rs_Some_ap (a : α) (s : St) : (rs_Some a : M ρ (Option α)) s = .next (some a) s := by cases s; rfl
 theorem ok_or_some (a : α) (e : ReserveErrorT) (s : St) : ((some a).rs_ok_or e : M ρ (Rs α)) s = .next (.ok a) s := by cases s; rfl
 theorem ok_or_none (e : ReserveErrorT) (s : St) : ((none : Option α).rs_ok_or e : M ρ (Rs α)) s = .next .err s := by cases s; rfl
